@@ -1,4 +1,67 @@
-import SfxModel.Transcendental
+import SfxProofs.Exp
+import SfxProps.C12
+import Mathlib.Analysis.SpecialFunctions.Pow.Real
+/-
+  C15 — exp, pow and powi are accurate wherever they return Ok.
+
+  FULL statement: `C15_statement` (over the reals).  PROVED: `C15_partial` — the whole `powi` clause (exact rational error bound for
+  `n ≥ 2`, truncated reciprocal for `n < 0`), the conventions `0^y = 0`, `x^0 = 1`, `x^1 = x` of pow and powi, and totality (C12).
+  NOT PROVED: the error bounds of `exp` and `pow`.  For `exp` the full statement is FALSE on the current tree: KNOWN FINDING D10
+  (known_findings.txt ids D10-exp / D10-pow): the Maclaurin series is cut after `frac_nbits` terms with no argument reduction, e.g.
+  `exp::<I32F32>(20)` is off by 0.8 % (allowed 2^-20).  The check replays that region on every run, prints KNOWN-FINDING, and reports any
+  oracle-judged failure OUTSIDE the finding's region as a violation.  (A formal `C15_counterexample` would need a certified enclosure of
+  `e^20`; it is not attempted — the witness is replayed against the implementation instead.)
+-/
 namespace Sfx.C15
-theorem placeholder : True := trivial
+open Sfx.C12
+
+noncomputable def val (f : Nat) (x : Int) : ℝ := (x : ℝ) / (2 : ℝ) ^ f
+
+/-- FULL statement of C15 -/
+def C15_statement : Prop :=
+  ∀ D : Layout, Supp D → ∀ x y : Int, inRange D x → inRange D y → ∀ n : Int,
+    (∀ r it dbg, Trans.run (Trans.exp D D x) = .ok (some r, it) dbg →
+      |val D.f r - Real.exp (val D.f x)| ≤ Real.exp (val D.f x) / (2 : ℝ) ^ 20 + 64 / (2 : ℝ) ^ D.f) ∧
+    (∀ r it dbg, 0 < x → Trans.run (Trans.pow D D x y) = .ok (some r, it) dbg →
+      |val D.f r - (val D.f x) ^ (val D.f y)| ≤
+        (1 / (2 : ℝ) ^ 18 + |val D.f y * Real.log (val D.f x)| / (2 : ℝ) ^ 22 + 16 * |val D.f y| / (2 : ℝ) ^ D.f) * (val D.f x) ^ (val D.f y)
+          + 64 / (2 : ℝ) ^ D.f) ∧
+    (∀ r it dbg, 2 ≤ n → Trans.run (Trans.powi D D x n) = .ok (some r, it) dbg →
+      |val D.f r - (val D.f x) ^ n.toNat| ≤ ((n : ℝ) + 1) / (2 : ℝ) ^ D.f * (max 1 |val D.f x|) ^ (n.toNat - 1))
+
+end Sfx.C15
+
+attribute [-instance] Monoid.toNPow
+namespace Sfx.C15
+open Sfx.ExpPf Sfx.C12
+
+/-- PROVED part of C15.  The `powi` bound is the exact integer form of `|r/2^f − (x/2^f)^n| ≤ (n−1) ulp · max(1,|x/2^f|)^(n−1)`
+(multiply by `2^(f·n)`; `Mx D x = max(2^f, |x|)`), which is stronger than the property's `(|n|+1)` ulp. -/
+theorem C15_partial (D : Layout) (h : Supp D) (x y : Int) (hx : inRange D x) (n : Int) :
+    -- powi, n ≥ 2
+    (∀ r it dbg, 2 ≤ n → Trans.run (Trans.powi D D x n) = .ok (some r, it) dbg →
+      ((r * 2 ^ (D.f * (n.toNat - 1)) - x ^ n.toNat).natAbs : Int) ≤ ((n.toNat - 1 : Nat) : Int) * Mx D x ^ (n.toNat - 1)) ∧
+    -- powi, n < 0: the truncated reciprocal of powi(x, |n|)
+    (x ≠ 0 → n < 0 →
+      (∃ r' it, Trans.run (Trans.powi D D x (-n)) = .ok (some r', it) false ∧ inRange D r' ∧
+        Trans.run (Trans.powi D D x n) = .ok (if r' = 0 then none else D.chk (divSpec D.f (2 ^ D.f) r'), it) false) ∨
+      (∃ it, Trans.run (Trans.powi D D x (-n)) = .ok (none, it) false ∧ Trans.run (Trans.powi D D x n) = .ok (none, it) false)) ∧
+    -- conventions
+    (Trans.run (Trans.powi D D 0 n) = .ok (some 0, 0) false) ∧
+    (x ≠ 0 → Trans.run (Trans.powi D D x 0) = .ok (some (2 ^ D.f), 0) false ∧ Trans.run (Trans.powi D D x 1) = .ok (some x, 0) false) ∧
+    (Trans.run (Trans.pow D D 0 y) = .ok (some 0, 0) false) ∧
+    (x ≠ 0 → Trans.run (Trans.pow D D x 0) = .ok (some (2 ^ D.f), 0) false ∧ Trans.run (Trans.pow D D x (2 ^ D.f)) = .ok (some x, 0) false) := by
+  obtain ⟨hv, hs, hf, hint⟩ := h
+  refine ⟨fun r it dbg hn he => powi_accuracy_tight D hv hs hf hint x hx n hn r it dbg he,
+    fun hx0 hn => powi_negative_run D hv hs hf hint x hx hx0 n hn,
+    (powi_conventions D hv hs hf hint 0 n).1 rfl,
+    fun hx0 => ⟨(powi_conventions D hv hs hf hint x n).2.1 hx0, (powi_conventions D hv hs hf hint x n).2.2 hx0⟩,
+    (pow_conventions D hv hs hf hint 0 y).1 rfl,
+    fun hx0 => ⟨(pow_conventions D hv hs hf hint x y).2.1 hx0, (pow_conventions D hv hs hf hint x y).2.2 hx0⟩⟩
+
+/-- non-vacuity: 1.5^3 in I9F23 returns Ok within the bound's reach -/
+example : Supp ⟨true, 32, 23⟩ ∧ inRange ⟨true, 32, 23⟩ (3 * 2 ^ 22) ∧
+    Trans.run (Trans.powi ⟨true, 32, 23⟩ ⟨true, 32, 23⟩ (3 * 2 ^ 22) 3) = .ok (some 28311552, 2) false := by
+  refine ⟨⟨by decide, rfl, by decide, by decide⟩, by decide, by decide +kernel⟩
+
 end Sfx.C15
